@@ -603,8 +603,11 @@ Proof. vm_compute. repeat split. Qed.
 
 (* all_or_nothing_recover.  [rrun true] is the LTS in which every panic of the work
    (panic(p), or the timeout writer's own "invalid WriteHeader code") is recovered in
-   the handler goroutine, answered by one more locked method call WriteHeader(500) on
-   the timeout writer, and followed by a normal return.  For every script and EVERY
+   the handler goroutine, answered by the RecoverHandler's reply [rs] on the timeout
+   writer — ANY reply that is [safe_reply]: header operations, WriteHeader with a valid
+   code, Writes, each one more locked method call (today's is [WriteHeader 500],
+   regenerated from the tree: GenProofs.recover_reply_is_safe) — and followed by a
+   normal return.  For every script and EVERY
    schedule — the Done event and the select may fall before the panic, between the
    panic and the recovery's WriteHeader, between that and the return, or after:
    - ServeHTTP never re-raises a panic;
@@ -615,12 +618,12 @@ Proof. vm_compute. repeat split. Qed.
      a run [ex] of [rec_cut fl false script] — the independent description of the
      recovered work (the script up to its first panic as [spec_panic] sees it, then
      WriteHeader(500)); [ex] is all of it or a cut at a context check that saw Done. *)
-Theorem all_or_nothing_recover : forall fl h0 script sched,
-  let s := rrun true (init fl h0 script) sched in
+Theorem all_or_nothing_recover : forall rs, safe_reply rs = true -> forall fl h0 script sched,
+  let s := rrun rs true (init fl h0 script) sched in
   (forall p, sst s <> SPanicRet p) /\
-  (exists script', rec_variant script script' /\ outcome fl h0 script' s) /\
+  (exists script', rec_variant rs script script' /\ outcome fl h0 script' s) /\
   (sst s = SDoneRet ->
-   exists ex, cut (rec_cut fl false script) ex (dk s) /\ spec_panic fl false ex = None /\
+   exists ex, cut (rec_cut rs fl false script) ex (dk s) /\ spec_panic fl false ex = None /\
               rw s = complete fl h0 ex).
 Proof. exact all_or_nothing_recover_lemma. Qed.
 Print Assumptions all_or_nothing_recover.
@@ -632,42 +635,49 @@ Print Assumptions all_or_nothing_recover.
    action.  (The model takes every tw.mu-protected method as atomic: it holds for the
    code as long as every path of those methods, panics included, releases the mutex;
    the correspondence run observes a violation of that as a hang, see Pinned.v.) *)
-Theorem returns_at_deadline_recover : forall fl h0 script sched k,
-  let s := rrun true (init fl h0 script) sched in
+Theorem returns_at_deadline_recover : forall rs, safe_reply rs = true -> forall fl h0 script sched k,
+  let s := rrun rs true (init fl h0 script) sched in
   dk s = Some k -> sst s = SWait ->
-  exists s', rstep true s (ES BTimeout) = Some (s', RNone) /\ sst s' = STimeoutRet k /\
+  exists s', rstep rs true s (ES BTimeout) = Some (s', RNone) /\ sst s' = STimeoutRet k /\
              rw s' = timeout_write k (rw s) /\ hst s' = hst s /\ hrest s' = hrest s.
 Proof. exact returns_at_deadline_recover_lemma. Qed.
 Print Assumptions returns_at_deadline_recover.
 
 (* the recovered work as the checker describes it never panics, and is the script itself
    when the script does not panic *)
-Theorem recovered_work_is_safe : forall fl acts w,
-  spec_panic fl w (rec_cut fl w acts) = None /\
-  (spec_panic fl w acts = None -> rec_cut fl w acts = acts).
+Theorem recovered_work_is_safe : forall rs, safe_reply rs = true -> forall fl acts w,
+  spec_panic fl w (rec_cut rs fl w acts) = None /\
+  (spec_panic fl w acts = None -> rec_cut rs fl w acts = acts).
 Proof. exact rec_cut_safe_and_neutral. Qed.
 Print Assumptions recovered_work_is_safe.
 
 (* without a RecoverHandler in the chain the recovering LTS is the plain one *)
-Theorem recover_absent_is_plain : forall sched s, rrun false s sched = run s sched.
+Theorem recover_absent_is_plain : forall rs sched s, rrun rs false s sched = run s sched.
 Proof. exact rrun_plain. Qed.
 Print Assumptions recover_absent_is_plain.
 
 (* an invalid code as the FIRST status: recovered, the client gets the 500 *)
 Example ex_recover_bad_code :
-  let s := rrun true (init false [(1, [5])] [ASet 2 9; AWriteHeader 0; AWrite [200]]) [EH; EH; EH; EH; ES BDone] in
+  let s := rrun [AWriteHeader 500] true (init false [(1, [5])] [ASet 2 9; AWriteHeader 0; AWrite [200]]) [EH; EH; EH; EH; ES BDone] in
   sst s = SDoneRet /\ rres (rw s) = Some (500, [(1, [5]); (2, [9])]) /\ rbody (rw s) = [] /\
-  rec_cut false false [ASet 2 9; AWriteHeader 0; AWrite [200]] = [ASet 2 9; AWriteHeader 500].
+  rec_cut [AWriteHeader 500] false false [ASet 2 9; AWriteHeader 0; AWrite [200]] = [ASet 2 9; AWriteHeader 500].
 Proof. vm_compute. repeat split. Qed.
 
 (* the deadline between the panic and the recovery's WriteHeader: the timeout reply, and the late 500 changes nothing *)
 Example ex_recover_deadline_between :
-  let s := rrun true (init false [] [AWriteHeader 999]) [EH; ED KDeadline; ES BTimeout; EH; EH] in
+  let s := rrun [AWriteHeader 500] true (init false [] [AWriteHeader 999]) [EH; ED KDeadline; ES BTimeout; EH; EH] in
   sst s = STimeoutRet KDeadline /\ rw s = timeout_resp false [] KDeadline /\ hst s = HDone.
 Proof. vm_compute. repeat split. Qed.
 
 (* an invalid code AFTER the timeout (nothing was recorded before): panics, is recovered, changes nothing *)
 Example ex_recover_after_timeout :
-  let s := rrun true (init false [] [AWrite [200]; AWriteHeader 600]) [ED KCancel; ES BTimeout; EH; EH; EH; EH] in
+  let s := rrun [AWriteHeader 500] true (init false [] [AWrite [200]; AWriteHeader 600]) [ED KCancel; ES BTimeout; EH; EH; EH; EH] in
   sst s = STimeoutRet KCancel /\ rw s = timeout_resp false [] KCancel /\ hst s = HDone.
+Proof. vm_compute. repeat split. Qed.
+
+(* a RecoverHandler that also sends headers and a body (the shape of http.Error): the same theorems apply *)
+Example ex_recover_with_body :
+  let rs := [ASet 800 850; AWriteHeader 500; AWrite [105; 110; 116]] in
+  let s := rrun rs true (init false [] [AWrite [200]; APanic 3]) [EH; EH; EH; EH; EH; EH; ES BDone] in
+  safe_reply rs = true /\ sst s = SDoneRet /\ rres (rw s) = Some (200, [(800, [850])]) /\ rbody (rw s) = [200; 105; 110; 116].
 Proof. vm_compute. repeat split. Qed.
